@@ -986,7 +986,7 @@ JNP = {
     'take': lambda x, i, axis=None, mode=None: np.take(asarr(x), toint(i), axis=axis, mode='wrap'),
     'arange': lambda n: np.arange(n),
     'float32': lambda x: x, 'float64': lambda x: x, 'int32': lambda x: x, 'inf': float('inf'), 'inexact': ('dtypeclass', 'inexact'), 'floating': ('dtypeclass', 'inexact'), 'integer': ('dtypeclass', 'integer'),
-    'issubdtype': lambda d, c: (d[1] == 'float') == (c[1] == 'inexact') if isinstance(d, tuple) and d[0] == 'dtype' else True,
+    'issubdtype': lambda d, c: _issubdtype(d, c),
     'ndarray': ('dtypeclass', 'ndarray'),
 }
 ANGLES = []    # field mode: (sin image, cos image, angle value) of angles known by construction
@@ -1980,6 +1980,31 @@ class Interp:
                 return isinstance(v, Struct) and v.cls == c.node.name
             if isinstance(c, ModRef) and c.name.endswith('ndarray') or isinstance(c, ModRef) and c.name.endswith('Array'):
                 return isinstance(v, (np.ndarray, Rat))
+            if isinstance(c, ModRef) and c.name.split('.')[-1] in ('Mapping', 'MutableMapping', 'dict', 'Dict'):
+                return isinstance(v, dict)
+            if isinstance(c, ModRef) and c.name.split('.')[-1] in ('Sequence', 'MutableSequence', 'List', 'Tuple'):
+                return isinstance(v, (list, tuple))
+            # builtin scalar / container types: decided on the host value; an abstract (traced) value is none of them
+            pyt = {'int': int, 'float': float, 'bool': bool, 'str': str, 'tuple': tuple, 'list': list, 'dict': dict, 'set': set,
+                   'bytes': bytes, 'complex': complex}
+            def one(ci):
+                if isinstance(ci, tuple) and len(ci) == 2 and ci[0] == 'builtin' and ci[1] in pyt:
+                    if isinstance(v, (Rat, np.ndarray)):
+                        if ci[1] in ('int', 'float') and isinstance(v, Rat) and v.fv is None and v.is_const() and getattr(v, '_literal', False):
+                            return True
+                        return False
+                    if ci[1] == 'float' and isinstance(v, Fraction):
+                        return True        # exact image of a float literal
+                    return isinstance(v, pyt[ci[1]]) and not (ci[1] == 'int' and isinstance(v, bool) and False)
+                return None
+            if isinstance(c, tuple) and c and not (len(c) == 2 and c[0] == 'builtin'):
+                rs = [one(ci) for ci in c]
+                if all(r is not None for r in rs):
+                    return any(rs)
+            else:
+                r = one(c)
+                if r is not None:
+                    return r
             return True
         if name == 'sum':
             it = list(args[0]); acc = args[1] if len(args) > 1 else 0
@@ -2525,6 +2550,25 @@ def _allclose(a, b):
     return uf('allclose', d)
 
 
+_DTYPE_CLASSES = {
+    'generic': ('float', 'int', 'uint', 'bool'), 'number': ('float', 'int', 'uint'), 'inexact': ('float',), 'floating': ('float',),
+    'integer': ('int', 'uint'), 'signedinteger': ('int',), 'unsignedinteger': ('uint',), 'bool_': ('bool',), 'bool': ('bool',)}
+
+
+def _issubdtype(d, c):
+    """numpy's dtype lattice on the interpreter's dtype tags (float / int / uint / bool)."""
+    if not (isinstance(d, tuple) and d and d[0] == 'dtype'):
+        return True
+    kind = d[1]
+    if isinstance(c, tuple) and c and c[0] == 'dtypeclass':
+        return kind in _DTYPE_CLASSES.get(c[1], ())
+    if isinstance(c, tuple) and c and c[0] == 'dtype':
+        return kind == c[1]
+    if callable(c):
+        return True
+    return True
+
+
 def _select(condlist, choicelist, default=0):
     out = asarr(default)
     for c, v in reversed(list(zip(condlist, choicelist))):
@@ -2567,7 +2611,8 @@ JNP.update({
     'less_equal': _cmp_prim('<='), 'greater_equal': _cmp_prim('>='),
     'ceil': unary('ceil'), 'round': unary('round'),
     'identity': lambda n, **k: P_eye(n),
-    'newaxis': None, 'nan': float('nan'), 'bool_': lambda x: x,
+    'newaxis': None, 'nan': float('nan'), 'bool_': ('dtypeclass', 'bool_'), 'number': ('dtypeclass', 'number'),
+    'signedinteger': ('dtypeclass', 'signedinteger'), 'unsignedinteger': ('dtypeclass', 'unsignedinteger'), 'generic': ('dtypeclass', 'generic'),
     'uint32': lambda x: x, 'uint8': lambda x: x, 'int64': lambda x: x, 'int8': lambda x: x, 'uint64': lambda x: x, 'float16': lambda x: x,
     'linspace': lambda a, b, n=50, **k: np.array([Rat.lift(exact(float(v))) for v in np.linspace(float(Rat.lift(a).constval()), float(Rat.lift(b).constval()), int(n))], dtype=object),
 })
